@@ -17,7 +17,7 @@ def plan(prop, tier):
     gated = [f for f in fam if f[0] != "caltrack"]
     q = tier == "quick"
     if prop == "C04":
-        return dict(scen=[("gate", gated), ("gate2", gated if not q else gated[:1]), ("refit", gated), ("free", gated if not q else gated[:2])], per=(6 if q else 40),
+        return dict(scen=[("gate", gated), ("gate2", gated if not q else gated[:1]), ("refit", gated), ("free", gated if not q else gated[:2])], per=(6 if q else 16),
                     rule="histories new/fit/sweep/save/restart/load over baselines {qualified, too short, poor fit, gaps, other tz} x ignore flags; "
                          "a sweep predicts every (report kind, ignore flag, aggregation); distinct = distinct (abstract history, family, profile)" + "; plus free-form histories (template T_free: every operation allowed at every position, 300 behaviours per family from tlc -simulate with the invariants checked along them, depth 12) chosen by feature cover",
                     extra=["C04 is decided for the three families that have a gate (daily, billing, hourly); the CalTRACK hourly wrapper has none",
@@ -25,21 +25,21 @@ def plan(prop, tier):
     if prop == "C01":
         if q:
             fam = fam + [("hourly", "solar_tf"), ("daily", "custommaps")]
-        return dict(scen=[("store", fam)] + ([] if q else [("free", fam)]), per=(5 if q else 40),
+        return dict(scen=[("store", fam)] + ([] if q else [("free", fam)]), per=(5 if q else 16),
                     rule="histories fit/sweep/save/(restart)/load/sweep/resave per family and profile; distinct = distinct (abstract history, family, profile)",
                     extra=["document equality is JSON-value equality", "the formula clause of C01 is decided by the DailyCurve module (C11/C12 checks), not here"])
     if prop == "C02":
-        return dict(scen=[("pure", fam), ("inter", fam if not q else fam[:3]), ("free", fam if not q else fam[1:3])], per=(6 if q else 40),
+        return dict(scen=[("pure", fam), ("inter", fam if not q else fam[:3]), ("free", fam if not q else fam[1:3])], per=(6 if q else 16),
                     rule="histories of 4-6 predicts over reports of five spans with/without observed, interleaved fits on a second slot, user "
                          "overwriting frames handed out; whole-state projection compared after every call" + "; plus free-form histories (template T_free: every operation allowed at every position, 300 behaviours per family from tlc -simulate with the invariants checked along them, depth 12) chosen by feature cover",
                     extra=[])
     if prop == "C05":
-        return dict(scen=[("obs", fam)], per=(8 if q else 60),
+        return dict(scen=[("obs", fam)], per=(8 if q else 24),
                     rule="histories of three predicts over 15 (weather, observed-variant) reports - variants {orig, x3, shuffled, 30% NaN, zeros, all NaN, absent} of a year, a part-year and a weather feed with gaps - in TLC-enumerated orders, chosen by feature cover; "
                          "prediction hashes taken on the rows every variant produces",
                     extra=["compared on probe rows (those not blanked in the 30%-NaN variant), which every variant predicts"])
     if prop == "C03":
-        return dict(scen=[("warm", fam if not q else fam[:3])], per=(4 if q else 24),
+        return dict(scen=[("warm", fam if not q else fam[:3])], per=(4 if q else 12),
                     rule="in-process histories with unrelated prior use (rng, settings, other fits) plus multi-process schedules (see schedules)",
                     extra=["OS-level timing interleavings of independent processes are not controlled"])
     raise KeyError(prop)
